@@ -50,7 +50,17 @@ def run_kani(names, features, timeout, jobs=12):
 
 
 def parse(out):
-    checks = [(int(a), int(b)) for a, b in re.findall(r"\*\* (\d+) of (\d+) failed", out)]
+    # per harness: (failed, total) CBMC checks; for a #[kani::should_panic] harness that verified ("encountered one or more panics as
+    # expected") the reached panic IS the obligation: its "failed" checks are the expected outcome, not undischarged ones
+    checks = []
+    for blk in re.split(r"(?=Checking harness )", out):
+        m = re.search(r"\*\* (\d+) of (\d+) failed", blk)
+        if not m:
+            continue
+        f, n = int(m.group(1)), int(m.group(2))
+        if "VERIFICATION:- SUCCESSFUL (encountered one or more panics as expected)" in blk:
+            f = 0
+        checks.append((f, n))
     ok = len(re.findall(r"VERIFICATION:- SUCCESSFUL", out))
     bad = len(re.findall(r"VERIFICATION:- FAILED", out))
     failed_names = re.findall(r"Verification failed for - ([A-Za-z0-9_:]+)", out)
